@@ -43,7 +43,7 @@ Bases(l) ==
     ELSE IF BaseSet = "families" THEN CppFamilies
     ELSE UNION {AllVectors("cpp", CommonKeys("cpp"), f) : f \in CppFamilies}
 
-RenderTable == [x \in UNION {UNION {DocVals(l, k) : k \in KeySet(l)} : l \in LangsAll} |-> Render(x, HashBits)]
+RenderTable == TLCEval([x \in AllDocVals |-> Render(x, HashBits)])      \* evaluated once (TLC would re-evaluate a lazy function per use)
 R(x) == RenderTable[x]
 
 None == <<>>
